@@ -19,6 +19,7 @@ Import ListNotations.
 Require Import MV.Lib.Base MV.C16.Gen MV.C16.Model MV.C16.Checkers.
 Require Import MV.C16.Proofs_Base MV.C16.Proofs_UF MV.C16.Proofs_Struct MV.C16.Proofs_Rebuild.
 Require Import MV.C16.Proofs_Prune MV.C16.Proofs_Cotree MV.C16.Proofs_Top MV.C16.Proofs_Examples MV.C16.Proofs_RepIndep.
+Require Import MV.C16.Proofs_Ring MV.C16.Proofs_Border MV.C16.Proofs_SingBorder MV.C16.Proofs_CheckRing.
 Open Scope Z_scope.
 
 (* 1. FULL, for ANY face list, edge table and cut set: the rebuilt mesh has the input faces in the same order with
@@ -98,20 +99,50 @@ Theorem C16_cut_graph_connected_contains_border : forall faces edges nv singus T
 Proof. exact cut_graph_border_connected. Qed.
 Print Assumptions C16_cut_graph_connected_contains_border.
 
-(* 5. PARTIAL.  Full statement: every singular vertex has a copy on the border of the cut mesh (unless the surface
-      is a closed sphere with fewer than two singular vertices).  Proved: under the hypotheses of 4, a singular
-      vertex s of the mesh is an END OF A CUT EDGE as soon as another vertex w of the mesh is singular or an end of
-      a cut edge (i.e. as soon as the cut graph is not empty or there are two singular vertices).  Missing: "an
-      end of an opened cut edge has a copy on the border of the rebuilt mesh" needs the ring structure of the
-      corners around a vertex; it is checked on every run (`singus_on_border_b`). *)
-Theorem C16_singularities_on_border_partial : forall faces edges nv singus T rk,
+(* 5. FULL (about the cut graph): under the hypotheses of 4, a singular vertex s of the mesh is an END OF A CUT EDGE
+      as soon as another vertex w of the mesh is singular or an end of a cut edge (i.e. as soon as the cut graph is
+      not empty or there are two singular vertices). *)
+Theorem C16_singularities_on_cut_graph : forall faces edges nv singus T rk,
   cut_hyps faces edges T rk ->
   exists cut, cut_edges_of edges nv singus T = Some cut /\
     forall s w, In s singus -> s <> w ->
       touched edges (zrange (zlen edges)) s -> touched edges (zrange (zlen edges)) w ->
       (In w singus \/ touched edges cut w) -> touched edges cut s.
 Proof. exact cut_graph_singularities. Qed.
-Print Assumptions C16_singularities_on_border_partial.
+Print Assumptions C16_singularities_on_cut_graph.
+
+(* 5b. FULL under the visible guard "the cut graph has two distinct edges" (the guard fails exactly in the sphere
+       exception - empty cut graph - and in the class of the known finding, 8).  `surface_ok_b`: triangles with
+       distinct vertices, every directed edge once, one id per edge, every table edge a side of a face, and the
+       corners of every vertex form ONE ring or fan (`rings_b`, vertex-manifoldness; all checked on every run).
+       Then every singular vertex of the mesh has a copy on the border of the rebuilt mesh: it is the ref_vertex of
+       an end of a half-edge of the output that no output face runs in the opposite direction.
+       Proof: the ring of corners around an end of a cut edge is broken at that edge and somewhere else (another
+       cut edge or the border), so the two corners on either side stay in different classes (ring_separates), the
+       edge is opened there, and its two copies are border half-edges.  Non-vacuity: grid_surface_ok, grid_hyps. *)
+Theorem C16_singularities_on_border_two_cut_edges : forall faces edges nv singus T rk,
+  cut_hyps faces edges T rk -> surface_ok_b faces edges = true ->
+  exists cut, cut_edges_of edges nv singus T = Some cut /\
+    ((exists e1 e2, In e1 cut /\ In e2 cut /\ e1 <> e2) ->
+     forall s, In s singus -> touched edges (zrange (zlen edges)) s ->
+       let r := rebuild faces edges cut in
+       exists b, In b (border_half_edges (out_faces r)) /\
+                 (ref_vertex r (fst b) = Some s \/ ref_vertex r (snd b) = Some s)).
+Proof. exact singularities_on_border_full. Qed.
+Print Assumptions C16_singularities_on_border_two_cut_edges.
+
+(* 5c. FULL, the same for ANY connected cut set with two edges (not only the one run() computes): every end of a cut
+       edge has a copy on the border of the rebuilt mesh. *)
+Theorem C16_cut_edge_ends_on_border : forall faces edges cut s,
+  surface_ok_b faces edges = true ->
+  subsetZ cut (zrange (zlen edges)) = true -> cut_connected_b edges cut = true ->
+  (exists e1 e2, In e1 cut /\ In e2 cut /\ e1 <> e2) ->
+  touched edges cut s ->
+  let r := rebuild faces edges cut in
+  exists b, In b (border_half_edges (out_faces r)) /\
+            (ref_vertex r (fst b) = Some s \/ ref_vertex r (snd b) = Some s).
+Proof. exact singular_on_border_b. Qed.
+Print Assumptions C16_cut_edge_ends_on_border.
 
 (* 6. FULL: if the pairs of faces across the edges of T link all faces (which a spanning tree of the dual graph
       does) and no edge of T is cut, any two faces of the rebuilt mesh are linked by a chain of faces sharing an
@@ -124,27 +155,22 @@ Theorem C16_connected : forall faces edges cut T,
 Proof. exact cut_mesh_connected. Qed.
 Print Assumptions C16_connected.
 
-(* 7. PARTIAL.  Full statement: the cut mesh is a disk (one component: 6; one border loop; V' - E' + F = 1).
-      Proved: the tree-cotree COUNTING IDENTITY that gives Euler characteristic 1 from named counting facts
-      (|T| = F-1; the complement touches every vertex; a leaf removal deletes one edge and one touched vertex;
-      every interior cut edge is doubled; a vertex of the cut graph gets deg copies, deg-1 on the border).
-      Missing: those counting facts about the rebuilt mesh and the single border loop (both need the ring
-      structure of corners around a vertex); `is_disk_b` checks all three disk claims on every run. *)
-Theorem C16_disk_euler_partial : forall V E F Eb nT e0 v0 eG vG V' E' : Z,
-  nT = F - 1 -> e0 = E - nT -> v0 = V -> eG - vG = e0 - v0 ->
-  E' = E + (eG - Eb) -> V' = V + (2 * eG - vG - Eb) ->
-  V' - E' + F = 1.
-Proof. exact euler_identity. Qed.
-Print Assumptions C16_disk_euler_partial.
+(* 7. NOT PROVED (no theorem): "the cut mesh is a disk" beyond connectedness (6).  Euler characteristic 1 and the
+      single border loop are CHECKED on mouette's output on every run by `is_disk_b` (Run.v codes 13-15), not proved.
+      The intended argument is tree-cotree counting: |T| = F-1; the complement touches every vertex; a leaf removal
+      deletes one edge and one touched vertex; every interior cut edge is doubled; a vertex of the cut graph gets
+      deg copies (deg-1 on the border); then V' - E' + F = 1 by arithmetic (Proofs_Top.euler_identity, an `lia`
+      fact about ten integers that mentions no model definition and is therefore NOT an obligation).  The counting
+      facts about `rebuild` are not established. *)
 
 (* 8. REFUTED: "for every closed sphere with at least two singular vertices the cut mesh is a disk with the
       singular vertices on its border".  Witness (what mouette computes): the tetrahedron with singular vertices
-      0 and 1; all hypotheses of 4 and 6 hold, cut_edges is the single edge (0,1), the rebuilt mesh IS the input
+      0 and 1; all hypotheses of 4, 5b and 6 hold except the guard of 5b: cut_edges is the single edge (0,1), the rebuilt mesh IS the input
       (4 vertices, closed, Euler characteristic 2), not a disk, and no singular vertex is on a border.
       Known finding `closed-sphere/two-adjacent-singularities/single-edge-slit`, replayed on every run. *)
 Theorem C16_disk_refuted : exists faces edges nv singus T rk,
   cut_hyps faces edges T rk /\ dual_spanning_df_b faces edges T = true /\
-  closed_b faces = true /\ euler faces = 2 /\ oriented_b faces = true /\ zlen (dedup singus) = 2 /\
+  closed_b faces = true /\ euler faces = 2 /\ surface_ok_b faces edges = true /\ zlen (dedup singus) = 2 /\
   exists cut, cut_edges_of edges nv singus T = Some cut /\
     let r := rebuild faces edges cut in
     is_disk_b (out_faces r) = false /\ euler (out_faces r) = 2 /\ closed_b (out_faces r) = true /\
